@@ -5719,6 +5719,27 @@ impl PeerConnectionInner {
             sctp.close();
         }
 
+        // End every data channel. Channels of a running association are also
+        // ended by the SCTP runner's cleanup; channels created before any
+        // association existed have nobody else to end them, and a task parked
+        // in `DataChannel::recv()` would otherwise wait forever. The state swap
+        // makes sure `Close` is delivered exactly once whoever gets there first.
+        {
+            let channels = self.data_channels.lock();
+            for weak_dc in channels.iter() {
+                if let Some(dc) = weak_dc.upgrade() {
+                    let old_state = dc.state.swap(
+                        crate::transports::sctp::DataChannelState::Closed as usize,
+                        Ordering::SeqCst,
+                    );
+                    if old_state != crate::transports::sctp::DataChannelState::Closed as usize {
+                        dc.send_event(crate::transports::sctp::DataChannelEvent::Close);
+                        dc.close_channel();
+                    }
+                }
+            }
+        }
+
         if let Some(dtls) = self.dtls_transport.lock().as_ref() {
             dtls.close();
         }
